@@ -54,6 +54,19 @@ def make_jobs(rng, tier, n_gen=10, n_bench=3, n_traj=5):
                          "name": name,
                          "np_seed": rng.randint(0, 2 ** 31 - 1)})
             jid += 1
+    # two same-named generated benchmarks with different seeds, both driven
+    # through the parameterised action space (name-keyed caches)
+    bname = rng.choice(configs.GEN_BENCH[:6])
+    for _ in range(2):
+        jobs.append({"id": jid, "kind": "traj",
+                     "spec": {"kind": "genbench", "name": bname,
+                              "seed": rng.randint(0, 10 ** 5)},
+                     "modes": {"fully_obs": rng.random() < 0.5,
+                               "flat_actions": False, "flat_obs": True},
+                     "np_seed": rng.randint(0, 2 ** 31 - 1),
+                     "plan_seed": rng.randint(0, 2 ** 31 - 1),
+                     "steps": 150, "reset_seed": None})
+        jid += 1
     for _ in range(n_traj):
         spec = configs.draw_spec(rng, {"benchmark": 0.4, "generated": 0.3,
                                        "yaml": 0.3})
